@@ -24,6 +24,7 @@ LEAN_HELPERS = ['MV.Lemmas.Transform', 'MV.Lemmas.TransformLib', 'MV.Model.Trans
                 'MV.Model.Types']
 DRIVERS = ['C18']
 GEN = ['Tables', 'Library']
+SRC_TIE = ['SrcMask']   # py2lean source images of the mask classes (__call__ / child / __invert__ / > & |), of apply_on_melody / apply_on_chord / apply_on_score and of the __call__ of the transformer families, proved equal to the model (MV/Props/TieSrcMask.lean)
 RULE = ('random scores / chords / melodies / notes (tags on every level, rests, continuations, all note systems, '
         'tempo / pedal marks) x random mask expressions (depth <= 4; every public constructor, &, |, ~, >, Mask.And/Or, '
         'Mask.eval text; plus hand-built NotMask / unguarded atoms) x user-defined (tag, context-recording, deleting) '
@@ -761,6 +762,9 @@ def correspondence(ctx):
         el = g_elem(rng, kind=rng.choice(['ts', 'ts', 'ts', 'tc', 'm']))
         cases.append(pipe_case(kind, g_steps(rng, chordless=el[0] != 'ts'), el))
     ctx.compare('pipeline', 'C18', cases)
+    # ---- source tie: the real method of each mask class / each apply_on_* against the model and against its source image
+    import srctie
+    srctie.run(ctx, SRC_TIE, quick=1000, thorough=16000)     # two kernels: (call, child, ~ > & |) x 27 mask classes; three apply_on_* and the __call__ of the transformer classes
 
 # =============================================================================== oracle: the property itself
 
